@@ -14,6 +14,7 @@ RULE = ("Networks with priority_preempt in {resume, restart, resample, reroute} 
         "it; restart - one sample, every episode's intended time == it; resample - one fresh sample per episode drawn at its start; "
         "reroute - no further episode at this node.  Non-trivial: >= 1 pre-emption; distinct by digest.")
 ASSUMPTIONS = ["tolerance 1e-9 on sums of episode durations (resume)"]
+TECHNIQUE = 'property-based testing: pre-emption monitor (no inversion, victim choice) and per-visit bookkeeping audit against logged samples'
 WALL = {"quick": 150, "thorough": 540}
 
 ALLOWED = ["priorities", "prio_preempt", "prio_reroute", "batching", "cc_waiting", "cc_after", "discipline", "routing_objects",
